@@ -4,6 +4,8 @@
 tier=${1:-quick}; pat=${2:-*}
 here=$(cd "$(dirname "$0")/.." && pwd)
 mkdir -p /tmp/wt
+res=$here/seeded/RESULTS.md
+echo "| seed | property | check run | exit | seconds | caught by (harness / label) |" > $res; echo "|---|---|---|---|---|---|" >> $res
 for d in $here/seeded/$pat/; do
   seed=$(basename $d)
   prop=$(python3 -c "import json;print(json.load(open('$d/meta.json'))['property'])" 2>/dev/null)
@@ -22,4 +24,5 @@ for d in $here/seeded/$pat/; do
   h=$(grep -A1 "^VIOLATION" /tmp/sweep_$seed.log | grep -o "harness=[A-Za-z0-9_]* kind=[a-z]* label=[^ ]*" | sort -u | head -3 | tr '\n' ';')
   inc=$(grep -c "^INCONCLUSIVE" /tmp/sweep_$seed.log)
   echo "RESULT seed=$seed prop=$prop tier=$tier exit=$rc secs=$((t1-t0)) inconclusive=$inc $h"
+  echo "| $seed | $prop | $prop $tier | $rc | $((t1-t0)) | $h |" >> $res
 done
